@@ -131,6 +131,11 @@ pub fn spec(id: &str) -> Option<Spec> {
                 b("owning", scen::c19::owning_honest, 3000, 60_000),
                 heavy("wrap", scen::queue::wrap_history, 48, 512),
                 grid("drivers", scen::c08::run, scen::c08::GRID, 15, 600).only(NOTIFY_CLASSES),
+                // blocking helpers of the drivers on their error paths: playback with periods the
+                // device fails, block requests with error statuses - every queued request must
+                // still have been announced to the device
+                b("sound_errors", scen::c20::sound_faulty, 2000, 60_000).only(NOTIFY_CLASSES),
+                b("blk_errors", scen::c14::faulty, 2000, 60_000).only(NOTIFY_CLASSES),
             ],
             extras: vec![Extra { name: "should_notify_sweep", f: scen::queue::notify_sweep }],
             assumptions: vec!["liveness bound: 4 idle device opportunities", "interrupts are not delivered asynchronously (library installs no handlers)"],
